@@ -270,4 +270,66 @@ theorem wellformed_reply_gives_port (r : EptMapResult) (wf : r.WF) (hst : r.stat
   obtain ⟨b, hb, hu⟩ := eptMapResult_roundtrip r wf
   exact ⟨b, hb, (port_is_first_tcp b r hu).1 hst p hp⟩
 
+structure _root_.DpapiNg.Epm.EptMap.WF (m : EptMap) : Prop where
+  obj : match m.obj with | none => True | some u => u.length = 16 ∧ u ≠ Py.zeros 16
+  tower : TowerWF m.tower
+  towerLen : ∀ bt, towerBytes m.tower = .ok bt → bt.length < 4294967296
+  handle : HandleWF m.entryHandle
+  maxTowers : m.maxTowers < 4294967296
+
+/-- **ept_map requests**: decode(encode m) = m (object UUID present / absent, any tower, NDR64 padding skipped exactly) -/
+theorem eptMap_roundtrip (m : EptMap) (wf : m.WF) : ∃ b, eptMapPack m = .ok b ∧ eptMapUnpack b = .ok m := by
+  obtain ⟨w1, ⟨wt1, wt2⟩, w3, w4, w5⟩ := wf
+  obtain ⟨bs, hbs, hfu⟩ := floors_rt m.tower wt1
+  have htb : towerBytes m.tower = .ok (Py.toLE m.tower.length 2 ++ bs.flatten) := by
+    unfold towerBytes; simp [le_ok _ 2 (show m.tower.length < 256 ^ 2 by omega), hbs, bind, Except.bind, pure, Except.pure]
+  have hbl := w3 _ htb
+  obtain ⟨eh, heh, hel, heu⟩ := entryHandle_rt m.entryHandle w4
+  generalize hN : Py.toLE m.tower.length 2 = N at *
+  have lN : N.length = 2 := by rw [← hN]; simp
+  have vN : Py.fromLE N = m.tower.length := by rw [← hN]; exact Py.fromLE_toLE _ 2 (by omega)
+  unfold eptMapPack
+  simp only [htb, bind, Except.bind, heh, le_ok _ 8 (show (N ++ bs.flatten).length < 256 ^ 8 by omega), le_ok _ 4 (show (N ++ bs.flatten).length < 256 ^ 4 by omega),
+    le_ok _ 4 (show m.maxTowers < 256 ^ 4 by omega), pure, Except.pure]
+  refine ⟨_, rfl, ?_⟩
+  generalize hO : m.obj.getD (Py.zeros 16) = O
+  have lO : O.length = 16 := by
+    rw [← hO]; cases hobj : m.obj with
+    | none => simp [Py.zeros]
+    | some u => rw [hobj] at w1; simpa using w1.1
+  generalize hL8 : Py.toLE (N ++ bs.flatten).length 8 = L8
+  generalize hL4 : Py.toLE (N ++ bs.flatten).length 4 = L4
+  generalize hZ : Py.zeros (Py.negMod ((N ++ bs.flatten).length + 4) 8) = Z
+  generalize hM : Py.toLE m.maxTowers 4 = M
+  have l8 : L8.length = 8 := by rw [← hL8]; simp
+  have l4 : L4.length = 4 := by rw [← hL4]; simp
+  have lZ : Z.length = Py.negMod ((N ++ bs.flatten).length + 4) 8 := by rw [← hZ]; exact zeros_length _
+  have lM : M.length = 4 := by rw [← hM]; simp
+  have v8 : Py.fromLE L8 = (N ++ bs.flatten).length := by rw [← hL8]; exact Py.fromLE_toLE _ 8 (by omega)
+  have vM : Py.fromLE M = m.maxTowers := by rw [← hM]; exact Py.fromLE_toLE _ 4 (by omega)
+  unfold eptMapUnpack
+  simp only [List.append_assoc, List.cons_append, List.nil_append]
+  -- the fixed 32-octet prefix: referent (8), object uuid (16), referent (8)
+  have s1 : Py.sliceN (1 :: 0 :: 0 :: 0 :: 0 :: 0 :: 0 :: 0 :: (O ++ (2 :: 0 :: 0 :: 0 :: 0 :: 0 :: 0 :: 0 :: (L8 ++ (L4 ++ (N ++ (bs.flatten ++ (Z ++ (eh ++ M))))))))) 8 24 = O := by
+    slices0 [lO]
+  have s2 : (1 :: 0 :: 0 :: 0 :: 0 :: 0 :: 0 :: 0 :: (O ++ (2 :: 0 :: 0 :: 0 :: 0 :: 0 :: 0 :: 0 :: (L8 ++ (L4 ++ (N ++ (bs.flatten ++ (Z ++ (eh ++ M))))))))).drop 32
+      = L8 ++ (L4 ++ (N ++ (bs.flatten ++ (Z ++ (eh ++ M))))) := by
+    slices0 [lO]
+  simp only [s1, s2]
+  have s3 : Py.sliceN (L8 ++ (L4 ++ (N ++ (bs.flatten ++ (Z ++ (eh ++ M)))))) 0 8 = L8 := by slices0 [l8]
+  have s4 : Py.sliceN (L8 ++ (L4 ++ (N ++ (bs.flatten ++ (Z ++ (eh ++ M)))))) 12 14 = N := by slices0 [l8, l4, lN]
+  have s5 : (L8 ++ (L4 ++ (N ++ (bs.flatten ++ (Z ++ (eh ++ M)))))).drop 14 = bs.flatten ++ (Z ++ (eh ++ M)) := by slices0 [l8, l4, lN]
+  have hobj : (if O = Py.zeros 16 then (pure none : R (Option Bytes)) else (uuidOf O).map some) = .ok m.obj := by
+    cases ho : m.obj with
+    | none => rw [ho] at hO; simp at hO; simp [← hO, pure, Except.pure]
+    | some u =>
+      rw [ho] at hO w1; simp at hO; subst hO
+      simp [w1.2, uuidOf, w1.1, Except.map]
+  have hd : (Z ++ (eh ++ M)).drop (Py.negMod ((N ++ bs.flatten).length + 4) 8) = eh ++ M := by rw [← lZ, List.drop_left]
+  have s6 : Py.sliceN (eh ++ M) 20 24 = M := by
+    have := Py.mid' eh M [] 20 24 hel (by simp [lM])
+    simpa [Py.sliceN] using this
+  simp only [s3, s4, s5, v8, vN, hfu, hd, heu M, s6, vM, bind, Except.bind, pure, Except.pure] at hobj ⊢
+  rw [hobj]
+
 end DpapiNg.C18
